@@ -345,6 +345,9 @@ def origin(model, fi, expr, at, depth=0):
       return {'generated'}
     if d in ('tuple', 'list') and expr.args:
       return origin(model, fi, expr.args[0], at, depth + 1)
+    if d in ('self.generic_visit', 'self.visit') and len(expr.args) == 1:
+      # the visitor hands back the (possibly rewritten) node it was given
+      return origin(model, fi, expr.args[0], at, depth + 1)
     if d.startswith('self._') or d.startswith('self.'):
       return {'generated'}
     if d in ('str',):
